@@ -68,6 +68,7 @@ inductive Op where
   | insertModeAt (idxFromBottom : Nat) (m : Mode)
   | checkpoint
   | clearCheckpoint
+  | bumpCheckpointModeLen (n : Nat)
   | rollback
   | pushPending (b : Bool)
   | popPending
@@ -228,6 +229,8 @@ def step (cfg : Cfg) : (o : Op) → Lexer → Resp o × Lexer
       | none => ((), L.panic "insertion index out of bounds")
   | .checkpoint, L => ((), L.checkpoint cfg)
   | .clearCheckpoint, L => ((), L.clearCheckpoint)
+  | .bumpCheckpointModeLen n, L =>
+      ((), { L with cp := L.cp.map fun c => { c with modeLen := c.modeLen + n } })
   | .rollback, L => ((), L.rollback)
   | .pushPending b, L => ((), L.pushPendingStat b)
   | .popPending, L => ((), L.popPendingStat)
